@@ -9,6 +9,7 @@
 The tables below are *inputs* (abstract values in the JSON form of spec/Asn1Value.tla); nothing here
 says what a codec should do with them.
 """
+import copy
 import hashlib
 import json
 import random
@@ -203,6 +204,113 @@ def extra_cases(tier, seed):
 
 
 # ----------------------------------------------------------------------------------------
+# sensitivity of the trace specification: corrupted recordings must be rejected (DESIGN 2.10)
+
+def _first_node(node, pred):
+    if pred(node):
+        return node
+    for k in node.get('kids', []) + node.get('vs', []):
+        r = _first_node(k, pred)
+        if r is not None:
+            return r
+    return None
+
+
+def _corruptions(line):
+    """(label, check that must reject, corrupted copy) for the observations of one recorded line."""
+    topk = line['env']['types'][line['top']]['k']
+    for oi, o in enumerate(line['obs']):
+        docs = o.get('docs')
+        if not docs or len(docs) < 4 or docs[0]['enc']['st'] != 'ok' or not docs[0].get('wf', {}).get('ok'):
+            continue
+        if 'tree' not in docs[0] or docs[0].get('dec', {}).get('st') != 'ok':
+            continue
+
+        def variant(label, check, fn):
+            l2 = copy.deepcopy(line)
+            l2['cid'] = '%s#%s-%s' % (line['cid'], label, o['codec'])
+            l2['obs'] = [l2['obs'][oi]]
+            return None if fn(l2['obs'][0]['docs']) is False else (label, check, l2)
+
+        def c_text(docs):       # one character of a string / text leaf changed
+            leaf = _first_node(docs[0]['tree'], lambda n: (n.get('f') == 't' and n['text']) or (n.get('j') == 'str' and n['s']))
+            if leaf is None:
+                return False
+            key = 'text' if 'text' in leaf else 's'
+            leaf[key][0] += 1
+
+        def c_wf(docs):         # the independent reader refused the indent=0 document
+            docs[1]['wf'] = {'ok': False, 'msg': 'corrupted'}
+
+        def c_dec(docs):        # the library's decoder failed
+            docs[0]['dec'] = {'st': 'exc', 'cls': 'DecodeError', 'mro': [], 'msg': 'corrupted', 'site': 'nowhere'}
+
+        def c_indent(docs):     # indent=4 put white space into a text leaf
+            t = copy.deepcopy(docs[0]['tree'])
+            leaf = _first_node(t, lambda n: n.get('f') == 't')
+            if leaf is None:
+                return False
+            leaf['text'] = [10, 32, 32] + leaf['text']
+            docs[3].pop('same', None)
+            docs[3]['tree'] = t
+
+        def c_real(docs):       # the emitted digits denote a neighbouring double
+            if topk != 'REAL':
+                return False
+            leaf = _first_node(docs[0]['tree'], lambda n: n.get('fl', {}).get('c') == 'F')
+            if leaf is None:
+                return False
+            leaf['fl']['m'][-1] ^= 2
+
+        muts = [('text', 'TREE@none', c_text), ('wf', 'WF@0', c_wf), ('dec', 'RT@none', c_dec), ('real', 'REAL@none', c_real)]
+        if o['codec'] == 'xer':
+            muts.append(('indent', 'TREE@4', c_indent))
+        for label, check, fn in muts:
+            v = variant(label, check, fn)
+            if v:
+                yield v
+
+
+SELFTEST_KINDS = 9     # text, wf, dec, real for jer and xer; indent for xer
+
+
+def make_corrupted(run, shards):
+    """Write a shard of corrupted copies of recorded lines; returns (path, {cid: check that must not be ok})."""
+    want, seen = {}, set()
+    path = run.path('corrupted.ndjson')
+    with open(path, 'w') as f:
+        for sh in shards:
+            for l in open(sh):
+                if len(seen) >= SELFTEST_KINDS:
+                    break
+                line = json.loads(l)
+                for label, check, l2 in _corruptions(line):
+                    k = (label, l2['obs'][0]['codec'])
+                    if k in seen:
+                        continue
+                    seen.add(k)
+                    want[l2['cid']] = check
+                    f.write(json.dumps(l2) + '\n')
+    return path, want
+
+
+def check_corrupted(run, reports, want):
+    """Every corrupted line must have drawn a reject of the expected check."""
+    mine = {r['cid']: r for r in reports if '#' in r['cid']}
+    missed = []
+    for cid, check in want.items():
+        r = mine.get(cid)
+        if not r or not [o for o in r['other'] if o['check'] == check and o['verdict'] in ('reject', 'dev')]:
+            missed.append('%s (%s)' % (cid, check))
+    if missed:
+        raise pl.Machinery('Trace_Text accepted corrupted recordings: %s' % ', '.join(missed))
+    run.traces -= len(mine)
+    run.notes['trace_spec_selftest'] = '%d corrupted recordings (%s), all rejected' % (
+        len(want), ', '.join(sorted({c.split('#')[1] for c in want})))
+    return [r for r in reports if '#' not in r['cid']]
+
+
+# ----------------------------------------------------------------------------------------
 
 def generate(run, tier):
     """TextModel = TypeGen + the model-level invariant; emits the cases."""
@@ -211,7 +319,7 @@ def generate(run, tier):
         sim = None          # nesting / references / recursion come from extra_cases(); BFS depth 2 is the thorough tier
     else:
         bfs = [(2, False, ['A']), (1, True, ['I'])]
-        sim = ('num=400', 6, ['E', 'A'], True)
+        sim = ('num=60', 5, ['E', 'A'], True)
     cases = []
     for n, (d, rich, tds) in enumerate(bfs):
         out, res = pl.tlc_generate(run, 'TextModel', model_cfg(d, rich, tds), 'gen%d.ndjson' % n, workers=8,
@@ -259,7 +367,9 @@ def c02(tier, seed):
         cpath = run.path('cases.ndjson')
         pl.write_cases(cases, cpath)
         shards = pl.drive(run, 'drive_text.py', cpath, 'trace', ['--codecs', 'jer,xer', '--numerics', '0,1'])
-        reports = pl.validate(run, 'Trace_Text', TRACE_CFG, shards, what='Trace_Text')
+        bad_path, want = make_corrupted(run, shards)
+        reports = pl.validate(run, 'Trace_Text', TRACE_CFG, shards + [bad_path], what='Trace_Text')
+        reports = check_corrupted(run, reports, want)
         idx = pl.load_trace_index(shards)
         pl.classify(run, reports, idx, 'C02')
         benign = {}
